@@ -165,8 +165,8 @@ func (w *Worker) Run(item Item, sh *Sharing) (res ItemResult) {
 	in.cexs = nil
 	in.cexCount = map[string]int{}
 	in.reach = map[string]int{}
-	in.funcsSeen = map[*ssa.Function]bool{}
-	in.stubsSeen = map[string]int{}
+	in.itemEpoch++
+	in.touched = in.touched[:0]
 	in.witnesses = nil
 	in.kfHits = map[string]int{}
 	in.knownFindings = map[string]bool{}
@@ -229,11 +229,15 @@ func (w *Worker) Run(item Item, sh *Sharing) (res ItemResult) {
 	res.Stats = in.stats
 	res.Cexs = in.cexs
 	res.Reach = in.reach
-	for f := range in.funcsSeen {
-		res.Funcs = append(res.Funcs, f.String())
+	res.Stubs = map[string]int{}
+	for _, fi := range in.touched {
+		if fi.intrinsic != nil {
+			res.Stubs[fi.name] += fi.calls
+		} else if fi.fn.Blocks != nil {
+			res.Funcs = append(res.Funcs, fi.name)
+		}
 	}
 	sort.Strings(res.Funcs)
-	res.Stubs = in.stubsSeen
 	res.Witnesses = in.witnesses
 	res.KnownHits = in.kfHits
 	res.SolverQ = in.solver.Queries - q0
